@@ -53,7 +53,7 @@ func newTmHarness(gated bool) *tmHarness {
 		}
 		return nil
 	})
-	verifHook = func(point string, args ...interface{}) {
+	setHook(func(point string, args ...interface{}) {
 		switch point {
 		case "timer-added":
 			h.Lock()
@@ -77,7 +77,7 @@ func newTmHarness(gated bool) *tmHarness {
 			c.arrived <- point
 			<-c.release
 		}
-	}
+	})
 	return h
 }
 
@@ -142,7 +142,7 @@ func (h *tmHarness) finish(id int, kind string, raw interface{}, realised bool) 
 	time.Sleep(20 * time.Millisecond)
 	h.rec.add(vO{"ev": "snap", "pending": h.pendingIds()})
 	h.ts.Shutdown()
-	verifHook = nil
+	setHook(nil)
 	js, _ := json.Marshal(raw)
 	h.rec.Lock()
 	evs := h.rec.events
